@@ -11,6 +11,7 @@ pub mod c06;
 pub mod c07;
 pub mod c08;
 pub mod fl;
+pub mod c09;
 pub mod c10;
 pub mod c11;
 pub mod c12;
@@ -32,6 +33,7 @@ pub fn dispatch(id: &str, run: &Arc<Run>) -> bool {
         "C06" => c06::run(run),
         "C07" => c07::run(run),
         "C08" => c08::run(run),
+        "C09" => c09::run(run),
         "C10" => c10::run(run),
         "C11" => c11::run(run),
         "C12" => c12::run(run),
